@@ -779,6 +779,18 @@ def functional_map(I: Interp, e: Any, fr: Frame, src: VList, gen: Any) -> V:
     paths = explore_body(I, run)
     normal = [p for p in paths if p.kind == "normal"]
     raising = [p for p in paths if p.kind == "raise"]
+    if not normal and raising:
+        # the element expression raises for every element (e.g. a type error): the
+        # comprehension raises at its first element if there is one, and is empty otherwise
+        if I.branch(n > 0):
+            zero = z3.IntVal(0)
+            conds = [z3.And(*[z3.substitute(f, (j, zero)) for f in p.delta]) if p.delta
+                     else z3.BoolVal(True) for p in raising]
+            d0 = I.choose(conds) if len(conds) > 1 else 0
+            if len(conds) == 1:
+                I.assume(conds[0])
+            raise PyExc(subst(raising[d0].exc, [(j, zero)]))
+        return VList([])
     if len(normal) != 1:
         raise Unsupported("comprehension element with several/no normal paths")
     alts = []
